@@ -319,9 +319,10 @@ namespace occa {
       const char *cStart = c;
       lex::skipTo(c, objectKeyEndChars);
       key = std::string(cStart, c - cStart);
+      // A quoted key ("") may be empty, an unquoted one cannot
+      OCCA_ERROR("Key cannot be of size 0",
+                 key.size());
     }
-    OCCA_ERROR("Key cannot be of size 0",
-               key.size());
 
     lex::skipWhitespace(c);
     OCCA_ERROR("Key must be followed by ':'",
